@@ -89,7 +89,17 @@ func genSqlwScenario(r *Rng, names bool) sqlwScenario {
 
 // runSqlw executes the scenario with the driver failing call number failAt (-1: none).
 func runSqlw(sc sqlwScenario, failAt int) (string, []recCall) {
+	return runSqlwCtx(sc, failAt, false)
+}
+
+// runSqlwCtx: with cancel=true the context is cancelled at call failAt (only the Context entry points)
+func runSqlwCtx(sc sqlwScenario, failAt int, cancel bool) (string, []recCall) {
 	st := &dbState{failAt: -1, exists: sc.exists}
+	ctx, cancelFn := context.WithCancel(context.Background())
+	defer cancelFn()
+	if cancel {
+		st.cancel = cancelFn
+	}
 	db := openFake(st)
 	defer db.Close()
 	var tx *sql.Tx
@@ -114,9 +124,9 @@ func runSqlw(sc sqlwScenario, failAt int) (string, []recCall) {
 			return sc.df.ToSQL(db, sc.table)
 		case 1:
 			if sc.hasOpts {
-				return sc.df.ToSQLContext(context.Background(), db, sc.table, sc.opts)
+				return sc.df.ToSQLContext(ctx, db, sc.table, sc.opts)
 			}
-			return sc.df.ToSQLContext(context.Background(), db, sc.table)
+			return sc.df.ToSQLContext(ctx, db, sc.table)
 		case 2:
 			if sc.hasOpts {
 				return sc.df.ToSQLTx(tx, sc.table, sc.opts)
@@ -124,9 +134,9 @@ func runSqlw(sc sqlwScenario, failAt int) (string, []recCall) {
 			return sc.df.ToSQLTx(tx, sc.table)
 		default:
 			if sc.hasOpts {
-				return sc.df.ToSQLTxContext(context.Background(), tx, sc.table, sc.opts)
+				return sc.df.ToSQLTxContext(ctx, tx, sc.table, sc.opts)
 			}
-			return sc.df.ToSQLTxContext(context.Background(), tx, sc.table)
+			return sc.df.ToSQLTxContext(ctx, tx, sc.table)
 		}
 	}
 	done := make(chan string, 1)
@@ -136,6 +146,24 @@ func runSqlw(sc sqlwScenario, failAt int) (string, []recCall) {
 	case status = <-done:
 	case <-time.After(20 * time.Second):
 		status = "hang"
+	}
+	if cancel && sc.entry == 1 {
+		// database/sql rolls a cancelled transaction back from its own goroutine, possibly after the call
+		// returned: wait (bounded) for the driver-level rollback before closing the trace
+		for w := 0; w < 200; w++ {
+			st.mu.Lock()
+			seen := false
+			for _, c := range st.calls {
+				if c.kind == "RB" {
+					seen = true
+				}
+			}
+			st.mu.Unlock()
+			if seen {
+				break
+			}
+			time.Sleep(5 * time.Millisecond)
+		}
 	}
 	st.mu.Lock()
 	st.recording = false
@@ -181,6 +209,16 @@ func genSqlw(r *Rng, id string, mode string) []string {
 			e := NewEnc()
 			emitSqlw(e, sc, k, st, cs)
 			lines = append(lines, e.Line(id+"f"+itoa(k), "SQLW"))
+		}
+		// cancellation of the context at every call (Context entry points only)
+		if sc.entry == 1 || sc.entry == 3 {
+			for k := 0; k < len(calls); k++ {
+				st, cs := runSqlwCtx(sc, k, true)
+				e := NewEnc()
+				emitSqlw(e, sc, k, st, cs)
+				e.Tok("CANCEL")
+				lines = append(lines, e.Line(id+"c"+itoa(k), "SQLW"))
+			}
 		}
 	}
 	return lines
